@@ -12,7 +12,7 @@ import effects
 import memrules
 import summaries
 
-LEVEL = 'proof'
+LEVEL = 'other'
 
 # functions whose failure is reported only through their return value (result must reach a branch or a return)
 FALLIBLE = ('jwt_claim_set', 'jwt_header_set', '__setter', 'json_object_set_new', 'json_object_update', 'json_object_update_missing',
@@ -349,4 +349,8 @@ def run(chk, prog, tier):
         'path of the public operations (constructors, verify, generate, JWK loading, set/get). On all resulting paths: no dereference of an '
         'unchecked allocation result, no use or return of released storage, no wrong-family release, the documented failure channel is '
         'used (C14 obligations), no fallible result is dropped, and no allocation bypasses the installed allocator.',
-        ['clang 14 front end', 'lib/interp.py', 'lib/model.py (which externals allocate through the installed allocator)', 'lib/effects.py'])
+        ['clang 14 front end', 'lib/interp.py', 'lib/model.py (which externals allocate through the installed allocator)', 'lib/effects.py'],
+        extra={'explanation': 'Exhaustive over allocation sites x {fails, succeeds} on every path for the rules listed under "rules"; all '
+               'obligations are discharged except the open finding C17.silent-degrade (jansson 2.14 json_dumps returns damaged text as success '
+               'when an internal buffer growth fails; replay seeded/findings/F1-json_dumps-allocfail.c), which is why this is not claimed as '
+               'a proof: the property does not hold for that fault.'})
